@@ -468,6 +468,25 @@ func genStore() (string, error) {
 	}
 	fmt.Fprintf(&b, "/-- what `Indexer.hasPendingWrites` returns -/\ndef hasPendingWritesReturns : String := %q\n", pending)
 	fmt.Fprintf(&b, "/-- per function, in source order: the view lookups `t.db.Get(…)`, the cache calls `blockCache.*(…)`, `t.getBlock(…)` -/\ndef blockCacheUse : List (String × String) := %s\n\n", pairList(cacheUse))
+	// 8b. every construction site of an indexer Txn in store/store.go: the `sort` argument (5th) of
+	//     NewTxn(reader, writer, prefix, state, sort, seek, version...) — only a Txn built with sort=true keeps its
+	//     pending operations in the sorted tree its iterators merge with the parent's
+	var idxSort [][2]string
+	for _, d := range sf.AST.Decls {
+		fd, ok := d.(*ast.FuncDecl)
+		if !ok || fd.Body == nil {
+			continue
+		}
+		for _, c := range calls(fd) {
+			if g.ExprText(c.Fun) != "NewTxn" || len(c.Args) < 6 {
+				continue
+			}
+			if g.ExprText(c.Args[2]) == "indexerPrefix" || g.ExprText(c.Args[0]) == "s.Indexer.db" {
+				idxSort = append(idxSort, [2]string{fd.Name.Name, g.ExprText(c.Args[4])})
+			}
+		}
+	}
+	fmt.Fprintf(&b, "/-- `store/store.go`: (function, `sort` argument) of every `NewTxn` that builds an indexer transaction -/\ndef indexerTxnSort : List (String × String) := %s\n\n", pairList(idxSort))
 	// 9. the block-property collector of store/versioned_store.go: which point keys contribute no version
 	//    interval to their sstable block/table (historical readers skip blocks whose interval misses their window)
 	vpath := filepath.Join(*repo, "store/versioned_store.go")
